@@ -82,6 +82,34 @@ def _ident():
     return Orientation._fromEuler(0, 0, 0)
 
 
+def _c(v):
+    """Coordinates of a Vector or of a tuple/list used as one."""
+    return tuple(v.coordinates) if hasattr(v, "coordinates") else tuple(v)
+
+
+def _vmap(f, *vs):
+    """Vector built coordinate-wise (only the Vector constructor is used, no Vector method)."""
+    return _V(*[f(*xs) for xs in zip(*[_c(v) for v in vs])])
+
+
+def _cross(a, b):
+    (ax, ay, az), (bx, by, bz) = _c(a), _c(b)
+    return _V(ay * bz - az * by, az * bx - ax * bz, ax * by - ay * bx)
+
+
+def _rot(a, t):
+    x, y, z = _c(a)
+    return _V(math.cos(t) * x - math.sin(t) * y, math.sin(t) * x + math.cos(t) * y, z)
+
+
+def _wrap(a):
+    while a > math.pi:
+        a -= 2 * math.pi
+    while a < -math.pi:
+        a += 2 * math.pi
+    return a
+
+
 OPS = {}
 
 
@@ -190,30 +218,44 @@ op("uniform_star_mix", ["num", "rlist"], ["num"], "Uniform({0}, *{1})", None, le
    member_of_mix=True)
 # ---- vectors ------------------------------------------------------------------------------------
 op("vector", ["num", "num", "num"], ["vec"], "Vector({0}, {1}, {2})", lambda a, b, c: _V(a, b, c))
-op("vadd", ["vec", "vec"], ["vec"], "({0} + {1})", lambda a, b: a + b)
-op("vsub", ["vec", "vec"], ["vec"], "({0} - {1})", lambda a, b: a - b)
-op("vadd_t", ["vec", "Knum", "Knum"], ["vec"], "({0} + ({1}, {2}, 3))", lambda a, b, c: a + (b, c, 3))
-op("vradd_t", ["vec", "Knum"], ["vec"], "(({1}, 2, 3) + {0})", lambda a, b: (b, 2, 3) + a)
-op("vrsub_t", ["vec", "Knum"], ["vec"], "(({1}, 2, 3) - {0})", lambda a, b: (b, 2, 3) - a)
-op("vrsub0", ["vec"], ["vec"], "((0, 0, 0) - {0})", lambda a: (0, 0, 0) - a, identity=True)
-op("vradd0", ["vec"], ["vec"], "((0, 0, 0) + {0})", lambda a: (0, 0, 0) + a, identity=True)
-op("vadd0", ["vec"], ["vec"], "({0} + (0, 0, 0))", lambda a: a + (0, 0, 0), identity=True)
-op("vsub0", ["vec"], ["vec"], "({0} - Vector(0, 0, 0))", lambda a: a - _V(0, 0, 0), identity=True)
-op("vmul", ["vec", "num"], ["vec"], "({0} * {1})", lambda a, b: a * b)
-op("vrmul", ["num", "vec"], ["vec"], "({0} * {1})", lambda a, b: a * b)
-op("vdiv", ["vec", "pos"], ["vec"], "({0} / {1})", lambda a, b: a / b)
-op("vx", ["vec"], ["num"], "{0}.x", lambda a: a.x)
-op("vz", ["vec"], ["num"], "{0}.z", lambda a: a.z)
-op("vidx", ["vec", "Kidx"], ["num"], "{0}[{1}]", lambda a, i: a[i])
+op("vadd", ["vec", "vec"], ["vec"], "({0} + {1})", lambda a, b: _vmap(lambda x, y: x + y, a, b),
+   approx=True)
+op("vsub", ["vec", "vec"], ["vec"], "({0} - {1})", lambda a, b: _vmap(lambda x, y: x - y, a, b),
+   approx=True)
+op("vadd_t", ["vec", "Knum", "Knum"], ["vec"], "({0} + ({1}, {2}, 3))",
+   lambda a, b, c: _vmap(lambda x, y: x + y, a, (b, c, 3)), approx=True)
+op("vradd_t", ["vec", "Knum"], ["vec"], "(({1}, 2, 3) + {0})",
+   lambda a, b: _vmap(lambda x, y: x + y, (b, 2, 3), a), approx=True)
+op("vrsub_t", ["vec", "Knum"], ["vec"], "(({1}, 2, 3) - {0})",
+   lambda a, b: _vmap(lambda x, y: x - y, (b, 2, 3), a), approx=True)
+op("vrsub0", ["vec"], ["vec"], "((0, 0, 0) - {0})", lambda a: _vmap(lambda x: 0 - x, a),
+   identity=True, approx=True)
+op("vradd0", ["vec"], ["vec"], "((0, 0, 0) + {0})", lambda a: _vmap(lambda x: 0 + x, a),
+   identity=True, approx=True)
+op("vadd0", ["vec"], ["vec"], "({0} + (0, 0, 0))", lambda a: _vmap(lambda x: x + 0, a),
+   identity=True, approx=True)
+op("vsub0", ["vec"], ["vec"], "({0} - Vector(0, 0, 0))", lambda a: _vmap(lambda x: x - 0, a),
+   identity=True, approx=True)
+op("vmul", ["vec", "num"], ["vec"], "({0} * {1})", lambda a, b: _vmap(lambda x: x * b, a), approx=True)
+op("vrmul", ["num", "vec"], ["vec"], "({0} * {1})", lambda a, b: _vmap(lambda x: x * a, b), approx=True)
+op("vdiv", ["vec", "pos"], ["vec"], "({0} / {1})", lambda a, b: _vmap(lambda x: x / b, a), approx=True)
+op("vx", ["vec"], ["num"], "{0}.x", lambda a: _c(a)[0])
+op("vz", ["vec"], ["num"], "{0}.z", lambda a: _c(a)[2])
+op("vidx", ["vec", "Kidx"], ["num"], "{0}[{1}]", lambda a, i: _c(a)[i])
 # (a Vector with random coordinates is a plain sequence: a random index needs a random vector)
-op("rvidx", ["rvec", "idx"], ["num"], "{0}[{1}]", lambda a, i: a[i])
-op("vnorm", ["vec"], ["num"], "{0}.norm()", lambda a: a.norm())
-op("vdist", ["vec", "vec"], ["num"], "{0}.distanceTo({1})", lambda a, b: a.distanceTo(b))
-op("vangle", ["vec", "vec"], ["num"], "{0}.angleTo({1})", lambda a, b: a.angleTo(b))
-op("vdot", ["vec", "vec"], ["num"], "{0}.dot({1})", lambda a, b: a.dot(b))
-op("vcross", ["vec", "vec"], ["vec"], "{0}.cross({1})", lambda a, b: a.cross(b))
-op("vnormalized", ["vec"], ["vec"], "{0}.normalized()", lambda a: a.normalized())
-op("vrot", ["vec", "num"], ["vec"], "{0}.rotatedBy({1})", lambda a, b: a.rotatedBy(b))
+op("rvidx", ["rvec", "idx"], ["num"], "{0}[{1}]", lambda a, i: _c(a)[i])
+op("vnorm", ["vec"], ["num"], "{0}.norm()", lambda a: math.hypot(*_c(a)), approx=True)
+op("vdist", ["vec", "vec"], ["num"], "{0}.distanceTo({1})",
+   lambda a, b: math.hypot(*[y - x for x, y in zip(_c(a), _c(b))]), approx=True)
+op("vangle", ["vec", "vec"], ["num"], "{0}.angleTo({1})",
+   lambda a, b: _wrap(math.atan2(_c(b)[1] - _c(a)[1], _c(b)[0] - _c(a)[0]) - math.pi / 2),
+   approx=True)
+op("vdot", ["vec", "vec"], ["num"], "{0}.dot({1})",
+   lambda a, b: sum(x * y for x, y in zip(_c(a), _c(b))), approx=True)
+op("vcross", ["vec", "vec"], ["vec"], "{0}.cross({1})", _cross, approx=True)
+op("vnormalized", ["vec"], ["vec"], "{0}.normalized()",
+   lambda a: _vmap(lambda x: x / math.hypot(*_c(a)) if math.hypot(*_c(a)) else 0.0, a), approx=True)
+op("vrot", ["vec", "num"], ["vec"], "{0}.rotatedBy({1})", _rot, approx=True)
 op("vfield", ["vec"], ["num"], "(vf at {0}).yaw", lambda a: _vf(a).yaw, approx=True)
 # ---- orientations ---------------------------------------------------------------------------------
 op("ori", ["num", "num", "num"], ["ori"], "Orientation.fromEuler({0}, {1}, {2})",
@@ -333,6 +375,10 @@ sop("lz_fn_kw", ["num", "num"], "f_kw({0}, scale=LZ, shift={1})",
 sop("lz_hypot", ["num"], "hypot({0}, LZ)", lambda z, a: math.hypot(a, z))
 sop("lz_max", ["num"], "max({0}, LZ)", lambda z, a: max(a, z))
 sop("lz_abs", [], "abs(LZ - 5)", lambda z: abs(z - 5))
+sop("lz_hypot_k", ["Knum"], "hypot({0}, LZ)", lambda z, c: math.hypot(c, z))
+sop("lz_max_k", ["Knum"], "max(LZ, {0})", lambda z, c: max(z, c))
+sop("lz_sin", [], "sin(LZ)", lambda z: math.sin(z))
+sop("lz_fn_k", ["Knum"], "f_kw({0}, shift=LZ)", lambda z, c: L.f_kw(c, shift=z))
 sop("lz_neg_dist", ["num"], "(-(LZ + {0}))", lambda z, a: -(z + a))
 sop("lz_round", ["num"], "round(LZ + {0}, 3)", lambda z, a: round(z + a, 3))
 sop("lz_tuple", ["num"], "({0}, LZ)", lambda z, a: (a, z))
@@ -824,6 +870,9 @@ def programs(draw):
         nm = draw(st.sampled_from(NORMAL_OPS))
         if OPS[nm].get("leaf") and draw(st.integers(0, 2)) > 0:
             nm = draw(st.sampled_from(NORMAL_OPS))
+        if draw(st.integers(0, 3)) == 0:  # the arithmetic core a little more often
+            nm = draw(st.sampled_from(["add", "sub", "mul", "div", "rsub", "rdiv", "neg", "abs",
+                                       "max", "min", "hypot", "floordiv", "mod", "pow"]))
         for a in OPS[nm]["args"]:
             if not a.startswith("K"):
                 ensure(a)
